@@ -24,7 +24,7 @@ rep.pop('seed', None); rep.pop('tier', None)
 json.dump(rep, open(os.path.join(HERE, dst), 'w'), indent=1, sort_keys=True)
 if os.path.abspath(src) != os.path.abspath(os.path.join(HERE, dst)) and '/replays/found/' in os.path.abspath(src):
     os.remove(src)
-e = {'property': prop, 'clause': rep['clause'], 'bucket': rep['bucket'], 'status': mode, 'replay': dst, 'description': what}
+e = {'property': prop, 'clause': rep['clause'], 'bucket': rep.get('bucket', '(not recorded)'), 'status': mode, 'replay': dst, 'description': what}
 if mode == 'fixed':
     e['commit'] = commit
     e['line'] = 'fixed: property=%s %s %s' % (prop, commit, what)
